@@ -178,7 +178,7 @@ def expect(r):
             if r["fn"] in ("floor", "ceil"):
                 return REQ, x
             f = to_float(x)
-            return (TOL, F(f)) if f is not None and int(f) == x else (NEVER, None)
+            return (TOL, ("round", x, F(f) if f is not None and int(f) == x else None))
         f = unfl(r["a"])
         if r["fn"] in ("floor", "ceil"):
             if f != f or math.isinf(f):
@@ -261,6 +261,8 @@ def expect(r):
 
 
 def same(exp, got):
+    if isinstance(exp, tuple) and exp and exp[0] == "round":      # the integer itself or the float equal to it
+        return (not isinstance(got, (tuple, bool)) and got == exp[1]) or (exp[2] is not None and got == exp[2])
     if exp == ("nan",):
         return got[0] == "f" and struct.unpack(">d", struct.pack(">Q", got[1]))[0] != struct.unpack(">d", struct.pack(">Q", got[1]))[0]
     if exp == ("fz",):
